@@ -81,27 +81,27 @@ type H3Handler struct {
 }
 
 type H3Req struct {
-	Method   string `json:"m"`
-	Path     string `json:"p"` // appended to /r/<index>
-	Query    string `json:"q,omitempty"`
-	Host     string `json:"host,omitempty"`
-	Hdr      []H3KV `json:"hdr,omitempty"`
-	RawKeys  bool   `json:"rawkeys,omitempty"`
-	Body     int    `json:"body"` // -1 = nil Body
-	NoBody   bool   `json:"nobody,omitempty"`
-	BChunk   int64  `json:"bchunk,omitempty"`
-	BGapUS   int64  `json:"bgap_us,omitempty"`
-	CL       int    `json:"cl,omitempty"` // 0 unknown, 1 right, 2 declared larger than the body, 3 declared smaller than the body
-	CLDelta  int    `json:"cl_delta,omitempty"`
-	Trl      []H3KV `json:"trl,omitempty"`
-	TrlEarly bool   `json:"trl_early,omitempty"` // trailer values present before the body is read
-	AtMS     int64  `json:"at,omitempty"`
-	Batch    int    `json:"batch,omitempty"`
-	CancelOn int    `json:"cancel_on,omitempty"` // 0 never, 1 after CancelUS, 2 when the response header arrived, 3 after CancelN body bytes
-	CancelUS int64  `json:"cancel_us,omitempty"`
-	CancelN  int    `json:"cancel_n,omitempty"`
-	RBuf     int64  `json:"rbuf,omitempty"`
-	Abandon  int    `json:"abandon,omitempty"` // 0 no; n: close the body after n-1 bytes
+	Method   string    `json:"m"`
+	Path     string    `json:"p"` // appended to /r/<index>
+	Query    string    `json:"q,omitempty"`
+	Host     string    `json:"host,omitempty"`
+	Hdr      []H3KV    `json:"hdr,omitempty"`
+	RawKeys  bool      `json:"rawkeys,omitempty"`
+	Body     int       `json:"body"` // -1 = nil Body
+	NoBody   bool      `json:"nobody,omitempty"`
+	BChunk   int64     `json:"bchunk,omitempty"`
+	BGapUS   int64     `json:"bgap_us,omitempty"`
+	CL       int       `json:"cl,omitempty"` // 0 unknown, 1 right, 2 declared larger than the body, 3 declared smaller than the body
+	CLDelta  int       `json:"cl_delta,omitempty"`
+	Trl      []H3KV    `json:"trl,omitempty"`
+	TrlEarly bool      `json:"trl_early,omitempty"` // trailer values present before the body is read
+	AtMS     int64     `json:"at,omitempty"`
+	Batch    int       `json:"batch,omitempty"`
+	CancelOn int       `json:"cancel_on,omitempty"` // 0 never, 1 after CancelUS, 2 when the response header arrived, 3 after CancelN body bytes
+	CancelUS int64     `json:"cancel_us,omitempty"`
+	CancelN  int       `json:"cancel_n,omitempty"`
+	RBuf     int64     `json:"rbuf,omitempty"`
+	Abandon  int       `json:"abandon,omitempty"` // 0 no; n: close the body after n-1 bytes
 	H        H3Handler `json:"h"`
 }
 
@@ -595,6 +595,7 @@ type h3Run struct {
 
 	mu       sync.Mutex
 	verdicts []h3Verdict
+	beyond   []string
 	obs      []*h3Obs
 	plans    []*h3Plan
 	cconns   []*quic.Conn
@@ -610,9 +611,20 @@ type h3Run struct {
 // flag records a finding; the most severe one (lowest prio) becomes the verdict of the run.
 // 0 wrong data, 1 misdelivery / duplication, 2 silent Content-Length disagreement, 3 wrong or missing protocol error,
 // 4 completion / liveness, 5 minor deviation.
+// Deviations from RFC 9114 that C18 does not speak about (it names unknown and forbidden frame and stream TYPES, Content-Length
+// disagreement and panics): a frame cut off by the end of the stream, reserved HTTP/2 setting identifiers, a closed critical stream.
+// Observed and counted, not judged.
+var h3BeyondProperty = []string{"truncated by the end of the stream", "SETTINGS with a reserved HTTP/2 setting identifier", "control stream closed"}
+
 func (x *h3Run) flag(prio int, sig, f string, a ...any) {
 	x.mu.Lock()
 	defer x.mu.Unlock()
+	for _, b := range h3BeyondProperty {
+		if strings.Contains(sig, b) {
+			x.beyond = append(x.beyond, b)
+			return
+		}
+	}
 	if len(x.verdicts) < 64 {
 		x.verdicts = append(x.verdicts, h3Verdict{prio, sig, fmt.Sprintf(f, a...)})
 	}
@@ -621,6 +633,10 @@ func (x *h3Run) flag(prio int, sig, f string, a ...any) {
 func (x *h3Run) verdict() {
 	x.mu.Lock()
 	defer x.mu.Unlock()
+	for _, b := range x.beyond {
+		x.res.Probe("rfc9114-deviation-outside-the-property: " + b)
+	}
+	x.beyond = nil
 	sort.SliceStable(x.verdicts, func(i, j int) bool { return x.verdicts[i].prio < x.verdicts[j].prio })
 	if x.res.Blocked != "" {
 		var keep []h3Verdict
@@ -1308,15 +1324,15 @@ func (x *h3Run) checkRequestHead(i int, so *h3SrvObs, r *http.Request) {
 // ---------------------------------------------------------------- client
 
 type h3Upload struct {
-	key    uint64
-	size   int
-	pat    int64
-	gapUS  int64
-	off, k int
-	req    *http.Request
-	trl    []H3KV
+	key         uint64
+	size        int
+	pat         int64
+	gapUS       int64
+	off, k      int
+	req         *http.Request
+	trl         []H3KV
 	eofWithData bool
-	closed bool
+	closed      bool
 }
 
 func (u *h3Upload) Read(p []byte) (int, error) {
@@ -1553,8 +1569,11 @@ func runH3(t *testing.T, ksc KScenario, res *KResult) {
 			time.Sleep(time.Second)
 			buf := make([]byte, 1<<20)
 			buf = buf[:runtime.Stack(buf, true)]
-			if strings.Contains(string(buf), "http3.(*rawConn).closeQlogger") && !res.Failed() && (x.on["C18"] || x.on["all"]) {
-				res.Fail("http3 goroutine left behind: rawConn.closeQlogger waits forever for a request stream that was never cleared", "the connection has ended, qlog is enabled; goroutines now %d, at the start of the run %d", runtime.NumGoroutine(), n0)
+			if strings.Contains(string(buf), "http3.(*rawConn).closeQlogger") {
+				// rawConn.closeQlogger waits for request streams whose receive side nobody finished (only with qlog enabled,
+				// which the world's recorder does). C18 does not speak about goroutines: counted and tolerated, not judged.
+				res.Probe("http3-closeQlogger-goroutine-left-behind")
+				res.TolerateLeak = "http3.(*rawConn).closeQlogger"
 			}
 		}
 	}()
@@ -1594,7 +1613,9 @@ func runH3(t *testing.T, ksc KScenario, res *KResult) {
 		res.Probe("opt:server-logger-nil")
 	}
 	if o.ConnCtx {
-		srv.ConnContext = func(ctx context.Context, c *quic.Conn) context.Context { return context.WithValue(ctx, h3CtxKey{}, "h3sim") }
+		srv.ConnContext = func(ctx context.Context, c *quic.Conn) context.Context {
+			return context.WithValue(ctx, h3CtxKey{}, "h3sim")
+		}
 		res.Probe("opt:conn-context")
 	}
 	if o.AddSet {
@@ -1951,6 +1972,10 @@ func (x *h3Run) judgeTransport(cause [2]error) {
 						res.Probe("srv:trailers-seen")
 					}
 				}
+			} else if so.bodyRead && mustComplete && h.CL >= 2 {
+				// the response disagrees with its own Content-Length: the client reports that at its reader and resets the
+				// exchange (H3_MESSAGE_ERROR), which also ends the request body the handler may still be reading
+				res.Probe("srv:body-read-ended-by-the-client-rejecting-the-response")
 			} else if so.bodyRead && mustComplete && (h.Read == 0 || h.Read == 3) {
 				x.flag(4, "handler could not read the request body in a fault-free run", "%s: %d of %d then %s", what, so.bodyN, q.Body, h3ErrClass(so.bodyErr))
 			}
@@ -1980,7 +2005,9 @@ func (x *h3Run) judgeTransport(cause [2]error) {
 			case sc.Opt.IdleMS > 0 && h3IsNoError(o.rtErr):
 				res.Probe("cli:request-raced-server-idle-timeout")
 			case mustComplete && (errors.Is(o.rtErr, context.Canceled) || errors.Is(o.rtErr, context.DeadlineExceeded)) && len(o.calls) == 0:
-				x.flag(4, "RoundTrip returned a context error although the request's own context is alive (the dial it shared was cancelled by another request)", "%s: %v", what, o.rtErr)
+				// http3.Transport dials with the context of the first request; a request that shares the dial fails with that
+				// request's cancellation. A robustness matter the property does not speak about: counted, not judged.
+				res.Probe("cli:dial-shared-with-a-cancelled-request")
 			case mustComplete:
 				x.flag(4, "RoundTrip failed in a fault-free run: "+h3ErrClass(o.rtErr), "%s: %v", what, o.rtErr)
 			default:
@@ -2244,21 +2271,21 @@ type H3RawFrame struct {
 }
 
 type H3RawStream struct {
-	Kind    string       `json:"kind"` // req | uni
-	UType   uint64       `json:"utype,omitempty"`
-	Frames  []H3RawFrame `json:"frames"`
-	CutPPM  int          `json:"cut_ppm,omitempty"` // > 0: only this fraction of the byte sequence is written
-	End     string       `json:"end"`               // fin | reset | close | open
-	Split   int64        `json:"split,omitempty"`
-	GapUS   int64        `json:"gap_us,omitempty"`
-	Method  string       `json:"m,omitempty"`
-	Hdr     []H3KV       `json:"hdr,omitempty"`
-	CLDecl  int          `json:"cl,omitempty"` // 0 no content-length, 1 right, 2 larger than the DATA frames, 3 smaller
-	RespN   int          `json:"resp_n,omitempty"`
-	RespTrl bool         `json:"resp_trl,omitempty"`
-	RStop   int          `json:"rstop,omitempty"` // n > 0: after n-1 response bytes the peer stops reading (RStopAct)
-	RStopAct string      `json:"rstop_act,omitempty"` // stop | close
-	AtMS    int64        `json:"at,omitempty"`
+	Kind     string       `json:"kind"` // req | uni
+	UType    uint64       `json:"utype,omitempty"`
+	Frames   []H3RawFrame `json:"frames"`
+	CutPPM   int          `json:"cut_ppm,omitempty"` // > 0: only this fraction of the byte sequence is written
+	End      string       `json:"end"`               // fin | reset | close | open
+	Split    int64        `json:"split,omitempty"`
+	GapUS    int64        `json:"gap_us,omitempty"`
+	Method   string       `json:"m,omitempty"`
+	Hdr      []H3KV       `json:"hdr,omitempty"`
+	CLDecl   int          `json:"cl,omitempty"` // 0 no content-length, 1 right, 2 larger than the DATA frames, 3 smaller
+	RespN    int          `json:"resp_n,omitempty"`
+	RespTrl  bool         `json:"resp_trl,omitempty"`
+	RStop    int          `json:"rstop,omitempty"`     // n > 0: after n-1 response bytes the peer stops reading (RStopAct)
+	RStopAct string       `json:"rstop_act,omitempty"` // stop | close
+	AtMS     int64        `json:"at,omitempty"`
 }
 
 // ---------------------------------------------------------------- raw peer: byte sequences
@@ -2600,18 +2627,18 @@ func (x *h3Run) rawExpectUni(st *H3RawStream, spans []h3Span, cutoff int, cs *h3
 // ---------------------------------------------------------------- raw peer: execution
 
 type h3RawObs struct {
-	ran       bool
-	exp       h3RawExpect
-	openErr   error
-	writeErr  error
-	wrote     int
-	resp      []byte
-	respErr   error
-	respEOF   bool
-	connErr   error // cause of the connection's end, sampled after the stream's script and the waiting period
-	calls     []*h3SrvObs
-	stopped   bool
-	sid       int64
+	ran      bool
+	exp      h3RawExpect
+	openErr  error
+	writeErr error
+	wrote    int
+	resp     []byte
+	respErr  error
+	respEOF  bool
+	connErr  error // cause of the connection's end, sampled after the stream's script and the waiting period
+	calls    []*h3SrvObs
+	stopped  bool
+	sid      int64
 }
 
 type h3RawState struct {
@@ -2851,12 +2878,12 @@ func (x *h3Run) rawExec(i int, st *H3RawStream, o *h3RawObs) {
 // ---------------------------------------------------------------- raw peer: response parser
 
 type h3RawResp struct {
-	status  int
-	hdr     http.Header
-	ninfo   int
-	body    []byte
-	trl     http.Header
-	err     string
+	status int
+	hdr    http.Header
+	ninfo  int
+	body   []byte
+	trl    http.Header
+	err    string
 }
 
 func h3ParseResp(b []byte) h3RawResp {
